@@ -313,7 +313,7 @@ func newCopier(root string, chown Chowner, tm *time.Time, mode *int, modeSet *mo
 	}
 
 	return &copier{
-		root:                           root,
+		root:                           filepath.Clean(root), // targets are cleaned paths: a root spelled "dir/" is not a prefix of them
 		inodes:                         map[uint64]string{},
 		chown:                          chown,
 		utime:                          tm,
